@@ -159,6 +159,7 @@ def run(ck):
          'C1=CC=CC=CC=C1', 'c1ccc2[nH]ccc2c1', 'C/C=C(/F)Cl', 'C/C(F)=C(/Cl)Br', 'C1CC/C=C/CCC1', 'C[C@H]1CC[C@@H](C)CC1', 'N[C@H](C(=O)O)[C@@H](C)O', '[CH3]', 'C[CH]C', '[O][O]',
          '[2H][C@](F)(Cl)C', 'F[C@]([2H])(Cl)C', 'F[C@](Cl)([2H])C', 'F[C@](Cl)(C)[2H]', '[2H][C@@](F)(Cl)C', 'C[C@@]([3H])(N)C(=O)O', '[2H][C@]1(C)CCCO1', 'N[C@@]([2H])(C)C(O)=O',
          'C[C@@](F)(Cl)Br', 'CC[C@](C)(N)C(=O)O', 'CC1(C)[C@@H]2CC[C@@]1(C)C(=O)C2',
+         'C/N=c1/cccc[nH]1', 'C/N=c1\\cccc[nH]1', 'C/N=c1\\sccn1C', 'C/N=c1/sccn1C', 'CC/N=c1/ccn(C)cc1', 'C/N=C1/C=CN(C)c2ccccc12', 'C/N=C1\\C=CN(C)c2ccccc12',
          'C1CCC/C=C\\CC1', 'C1CCC/C=C/CC1', 'C1=C/CCCCCC/1', 'C1=C\\CCCCCC/1', 'C1=C\\CC/C=C\\CC/1', 'OC1CC/C=C/CCC1', 'C1CCCC/C=C/CC1', 'C1CCCC/C=C\\CC1', 'C1CC/C=C\\CC1']
     cases = []
     for k, s in enumerate(sel):
